@@ -94,7 +94,7 @@ theorem band_nat_one (n : Nat) : evalBin .band (.int n) (.int 1) = .ok (.int ((n
 `k` says (`crRet` for `call_rcu`), the callback's `func` member is set and its queue node was initialised -/
 def CallPost (env : Env) (H : Loc) (fv : Val) (pcEnd : TPc) (nest : Nat) (out : Out) (ls' : U.LState) : Prop :=
   (out.ctl = .normal ∨ out.ctl = .blocked) ∧
-  (out.ctl = .normal → ls' = ⟨pcEnd, nest⟩ ∧ out.env.vars = env.vars ∧ out.env.priv (.field H "func") = some fv)
+  (out.ctl = .normal → ls' = ⟨pcEnd, nest⟩ ∧ out.env.priv (.field H "func") = some fv)
 
 open Lean.Parser.Tactic in
 set_option hygiene false in
@@ -126,19 +126,21 @@ theorem _call_rcu_refines_env (L : Layout) (id0 : Nat) (fuel : Nat) (env : Env) 
         | nil => cr_leaf []
         | cons f inp =>
           obtain ⟨n, rfl⟩ := hi2 f (by simp)
-          by_cases hn : n &&& 1 = 0
-          · cases inp with
-            | nil => cr_leaf [hn]
+          by_cases hn : n % 2 = 0
+          · have hn' : (n : Int) % 2 = 0 := by omega
+            cases inp with
+            | nil => cr_leaf [hn, hn']
             | cons fx inp =>
               obtain ⟨v, rfl⟩ := hi3 fx (by simp)
               by_cases hv : v = -1
               · cases inp with
-                | nil => cr_leaf [hn, hv]
+                | nil => cr_leaf [hn, hn', hv]
                 | cons w inp =>
                   obtain ⟨wn, rfl⟩ := hi4 w (by simp)
                   have hw : ¬ ((wn : Int) < 0) := by omega
-                  cr_leaf [hn, hv, hw]
-              · cr_leaf [hn, hv]
-          · cr_leaf [hn]
+                  cr_leaf [hn, hn', hv, hw]
+              · cr_leaf [hn, hn', hv]
+          · have hn' : ¬ (n : Int) % 2 = 0 := by omega
+            cr_leaf [hn, hn']
 
 end UrcuVerif.Src.CallRcuR
